@@ -364,6 +364,12 @@ func interpCase(kind, pre, val, post string) *Case {
 	case "title":
 		src = `<div><title>` + pre + `{{ v }}` + post + `</title></div>`
 	}
+	// every third case is preceded by renders that FAIL in the middle of an interpolation (text and attribute): what a failed render
+	// leaves behind in process-wide state (pooled buffers) must not show in the next one
+	if len(val)%3 == 0 {
+		renderPage(map[string]string{"page.vuego": `<p title="STALE-ATTR {{ v | nosuchfilter }}">STALE-TEXT {{ v | nosuchfilter }} tail</p>`}, "page.vuego", map[string]any{"v": val})
+		renderPage(map[string]string{"page.vuego": `<p>STALE-TEXT {{ v | nosuchfilter }}</p>`}, "page.vuego", map[string]any{"v": val})
+	}
 	res := renderPage(map[string]string{"page.vuego": src}, "page.vuego", map[string]any{"v": val})
 	c.Impl = res.canon()
 	v := &Verdict{OK: true}
